@@ -29,4 +29,11 @@ MUTANTS = [
     ("C02", "algos/design_space.py", r"            out\[\.\.\., norm_inds\] \+= lower_bounds\[norm_inds\]", "            out[..., norm_inds] -= lower_bounds[norm_inds]"),
     ("C02", "algos/design_space.py", r"        rounded_x_vect\[\.\.\., are_integers\] = np_round\(x_vect\[\.\.\., are_integers\]\)", "        rounded_x_vect[..., are_integers] = x_vect[..., are_integers]"),
     ("C02", "algos/design_space.py", r"            or self.__current_value.keys\(\) != self._variables.keys\(\)\n", ""),
+    # ---- C16 forward finite differences
+    ("C16", "utils/derivatives/finite_differences.py", r"input_perturbations\[input_indices, range\(n_indices\)\] \+ step\n            > upper_bounds\[input_indices\]", "input_perturbations[input_indices, range(n_indices)]\n            >= upper_bounds[input_indices]"),
+    ("C16", "utils/derivatives/finite_differences.py", r"            -step,\n            step,\n        \)", "            step,\n            -step,\n        )"),
+    ("C16", "utils/derivatives/finite_differences.py", r"input_perturbations\[:, perturbation_index\], \*\*kwargs\n            \)\n            g_approx = \(perturbated_output - initial_output\) / step\[perturbation_index\]", "input_perturbations[:, perturbation_index], **kwargs\n            )\n            g_approx = (perturbated_output - initial_output) * step[perturbation_index]"),
+    ("C16", "utils/derivatives/finite_differences.py", r"            input_perturbations\[input_indices, range\(n_indices\)\] \+= step\n", "            input_perturbations[input_indices, range(n_indices)] -= step\n"),
+    ("C16", "utils/derivatives/finite_differences.py", r"        input_perturbations\[input_indices, range\(n_indices\)\] \+= steps", "        input_perturbations[range(n_indices), input_indices] += steps"),
+    ("C16", "utils/derivatives/finite_differences.py", r"        initial_output = self.f_pointer\(input_values, \*\*kwargs\)\n        for", "        initial_output = self.f_pointer(input_perturbations[:, 0], **kwargs)\n        for"),
 ]
